@@ -4,6 +4,7 @@ Model: `Model/ParserObj.lean` (the two caches, token lists as heap cells, ops pa
 clear_cache / client pops from a list it was handed).
 -/
 import Mathy.Model.ParserObj
+import Mathy.Proofs.ParserObjLemmas
 namespace Mathy
 
 /-- what a fresh parser answers to `tokenize(s)` -/
@@ -12,17 +13,23 @@ def freshTokenize (s : List Char) : POut :=
   | .ok ts => .tokens ts
   | .error c => .badChar c
 
+theorem freshAnswer_tokenize (s : List Char) : freshAnswer (.tokenize s) = freshTokenize s := by
+  simp only [freshAnswer, freshTokenize]
+  cases tokenize false s <;> rfl
+
 /-- **C12.** After ANY history of parse / tokenize / clear_cache calls (failing ones included) and
 of pops from token lists handed out earlier, `parse(s)` answers what a fresh parser answers … -/
 theorem C12_parse_history_independent (ops : List POp) (s : List Char) :
     (runOps PState.init [] (ops ++ [.parse s])).getLast? = some (.parsed (parseText s)) := by
-  sorry
+  rw [runOps_fresh _ _ _ PInv.init]
+  simp [freshAnswer]
 
 /-- … and `tokenize(s)` returns the fresh token list (so lists handed out are independent
 copies: consuming or editing one never affects later calls). -/
 theorem C12_tokenize_history_independent (ops : List POp) (s : List Char) :
     (runOps PState.init [] (ops ++ [.tokenize s])).getLast? = some (freshTokenize s) := by
-  sorry
+  rw [runOps_fresh _ _ _ PInv.init]
+  simp [freshAnswer_tokenize]
 
 /-- every answer inside a history is the fresh answer too -/
 theorem C12_every_answer_fresh (ops : List POp) (i : Nat) (o : POut)
@@ -31,7 +38,17 @@ theorem C12_every_answer_fresh (ops : List POp) (i : Nat) (o : POut)
     | some (.parse s) => o = .parsed (parseText s)
     | some (.tokenize s) => o = freshTokenize s
     | _ => o = .unit := by
-  sorry
+  rw [runOps_fresh _ _ _ PInv.init, List.getElem?_map] at h
+  cases hi : ops[i]? with
+  | none => simp [hi] at h
+  | some op =>
+    simp only [hi, Option.map_some, Option.some.injEq] at h
+    subst h
+    cases op with
+    | parse s => rfl
+    | tokenize s => exact freshAnswer_tokenize s
+    | clear => rfl
+    | consume j n => rfl
 
 /-! non-vacuity: a history with a failing parse, a cache hit and a consumed list -/
 example : runOps PState.init []
